@@ -2,10 +2,13 @@
 import itertools
 import random
 from vf import Case
+from gen import constants
 
 ID = "C14"
 DRIVER = "drv_codec"
 HARNESS = "h_codec"
+GEN = [constants.gen]
+TIE = ['Ufw.Tie.Varint']
 RULE = ("values: 0, 2^(7k)-1, 2^(7k), 2^(7k)+1 for every k, all single-bit values, type extremes and seeded random values, "
         "each through length query, buffer encoder (several buffer states incl. too little room), sink encoder; decoders: every "
         "octet string over {00,01,7f,80,81,ff} up to a length bound (sampled in quick, complete to length 7 in thorough) and random "
